@@ -675,13 +675,13 @@ def generate(rng, tier):
     ]
     cases += fixed
     stacks = small_stacks()
-    per_stack = 4 if tier == "quick" else 60
+    per_stack = 4 if tier == "quick" else 45
     for s in stacks:
         for outs in SYSTEMATIC:
             cases.append({"stack": s, "hist": rand_hist(rng, 4, outs, p=0.25)})
         for _ in range(per_stack):
             cases.append({"stack": s, "hist": rand_hist(rng, rng.choice([0, 1, 1, 2, 2, 3, 4]))})
-    n_rand = 1200 if tier == "quick" else 30000
+    n_rand = 1200 if tier == "quick" else 22000
     for _ in range(n_rand):
         s = rand_stack(rng, 3)
         if not is_ext(s):
@@ -719,8 +719,9 @@ def shrink(case):
         if k == "M":
             for c in t[1]:
                 yield c
-            for j in range(len(t[1])):
-                yield ["M", t[1][:j] + t[1][j + 1:]]
+            if len(t[1]) > 1:               # MultiTestResult() without results cannot be constructed
+                for j in range(len(t[1])):
+                    yield ["M", t[1][:j] + t[1][j + 1:]]
             for j, c in enumerate(t[1]):
                 for x in sub(c):
                     yield ["M", t[1][:j] + [x] + t[1][j + 1:]]
